@@ -588,6 +588,7 @@ func (h *handler) runStream(
 		appErr = sd.Handler(info.serviceImpl, stream)
 	}
 
+	vGate("srv.stream.returned", h, streamId)
 	err = stream.SendTrailer(appErr)
 	vGate("srv.stream.exit", h, streamId)
 	if err != nil {
